@@ -28,6 +28,11 @@ for l in res.splitlines():
         results[cur] = {"exit": int(m.group(2)), "summary": m.group(3).strip(), "first_violation": None}
     elif cur and l.startswith("  ") and results[cur]["first_violation"] is None:
         results[cur]["first_violation"] = l.strip()[:500]
+    elif cur and l.startswith("VIOLATION") and "replay=" in l:
+        rp = l.split("replay=")[1].strip()
+        if os.path.exists(rp):
+            shutil.copy(rp, f"{dst}/replay-{cur}.json")
+            results[cur]["replay"] = f"replay-{cur}.json"
 meta = {
     "seed": name,
     "property": agent_meta.get("property", name[:3]),
